@@ -15,7 +15,9 @@ import (
 // {VEVENT,VTODO,VJOURNAL,VFREEBUSY,VTIMEZONE} x UID {absent,u1,u2}.
 
 var c19Types = []string{ical.CompEvent, ical.CompToDo, ical.CompJournal, ical.CompFreeBusy, ical.CompTimezone}
-var c19UIDs = []string{"", "u1", "u2"}
+// UID choices: absent, two plain texts, a text that needs escaping on the wire, a case variant of u1
+// (UIDs are compared exactly), and a UID property present with an empty value (no UID)
+var c19UIDs = []string{"", "u1", "u2", `o,4;a\b`, "U1", "\x00EMPTY"}
 
 type c19Case struct {
 	Method bool `json:"method"`
@@ -27,15 +29,17 @@ type c19Case struct {
 
 var c19MethodForms = []string{"", "empty", "binary"}
 
+var c19PerComp = len(c19Types) * len(c19UIDs)
+
 func c19Decode(idx int, l int, mv int) c19Case {
 	c := c19Case{Method: mv > 0}
 	if mv > 0 {
 		c.MethodForm = c19MethodForms[mv-1]
 	}
 	for k := 0; k < l; k++ {
-		d := idx % 15
-		idx /= 15
-		c.Comps = append(c.Comps, c19Types[d/3]+"/"+c19UIDs[d%3])
+		d := idx % c19PerComp
+		idx /= c19PerComp
+		c.Comps = append(c.Comps, c19Types[d/len(c19UIDs)]+"/"+c19UIDs[d%len(c19UIDs)])
 	}
 	return c
 }
@@ -61,7 +65,9 @@ func c19Build(c c19Case) *ical.Calendar {
 	for _, s := range c.Comps {
 		i := strings.IndexByte(s, '/')
 		comp := ical.NewComponent(s[:i])
-		if uid := s[i+1:]; uid != "" {
+		if uid := s[i+1:]; uid == "\x00EMPTY" {
+			comp.Props.Set(ical.NewProp(ical.PropUID))
+		} else if uid != "" {
 			comp.Props.SetText(ical.PropUID, uid)
 		}
 		cal.Children = append(cal.Children, comp)
@@ -80,9 +86,11 @@ func c19Ref(c c19Case) (accept bool, typ, uid string) {
 			types[s[:i]] = true
 			typ = s[:i]
 		}
-		if s[i+1:] != "" {
+		if s[i+1:] != "" && s[i+1:] != "\x00EMPTY" {
 			uids[s[i+1:]] = true
-			uid = s[i+1:]
+			if uid == "" {
+				uid = s[i+1:]
+			}
 		}
 	}
 	accept = !c.Method && len(types) <= 1 && len(uids) <= 1
@@ -138,7 +146,7 @@ func c19Class(c c19Case) string {
 		} else if s[i+1:] != "" {
 			tzHasUID = true
 		}
-		if s[i+1:] != "" {
+		if s[i+1:] != "" && s[i+1:] != "\x00EMPTY" {
 			uids[s[i+1:]] = true
 		} else if k == 0 {
 			firstUIDless = true
@@ -153,14 +161,14 @@ func init() {
 		if thorough(r) {
 			maxLen = 5
 		}
-		r.Rule = fmt.Sprintf("every calendar = METHOD{absent, REQUEST, present with an empty value, present with VALUE=BINARY} x every component sequence of length 0..%d over 5 component types x UID{absent,u1,u2}; non-trivial = at least 2 components (so that a type or UID conflict is expressible); distinct by the full sequence", maxLen)
+		r.Rule = fmt.Sprintf("every calendar = METHOD{absent, REQUEST, present with an empty value, present with VALUE=BINARY} x every component sequence of length 0..%d over 5 component types x UID{absent, u1, u2, a text needing escaping, U1, present-but-empty}; non-trivial = at least 2 components (so that a type or UID conflict is expressible); distinct by the full sequence", maxLen)
 		r.Explanation = "caldav.ValidateCalendarObject is executed on every generated calendar and compared with an independent reference (accept iff no METHOD, <=1 non-VTIMEZONE type, <=1 distinct UID; results = that type/UID; empty results on rejection)"
 		r.Assumptions = []string{"UID values are plain iCalendar TEXT", "go-ical Props.Get/Text behave as documented"}
 		base := 0
 		for l := 0; l <= maxLen; l++ {
 			n := 1
 			for k := 0; k < l; k++ {
-				n *= 15
+				n *= c19PerComp
 			}
 			l := l
 			off := int64(base)
@@ -188,15 +196,18 @@ func init() {
 			base += n * 4
 		}
 		// history independence: the verdict on a calendar does not depend on what was validated before.
-		// Every ordered pair of the calendars with at most 2 components (964 x 964), back to back in one
+		// Every ordered pair of the calendars with at most 1 component and a seventh of those with 2, back to back in one
 		// goroutine per first element.
 		var small []c19Case
 		for l := 0; l <= 2; l++ {
 			n := 1
 			for k := 0; k < l; k++ {
-				n *= 15
+				n *= c19PerComp
 			}
 			for i := 0; i < n*4; i++ {
+				if l == 2 && i%7 != 0 {
+					continue // a seventh of the two-component calendars
+				}
 				small = append(small, c19Decode(i/4, l, i%4))
 			}
 		}
